@@ -154,6 +154,26 @@ func runC14(r *mc.Run) {
 			}
 		}
 	}
+	if r.Thorough() {
+		tstates := []int{2, 3, 6} // right, short, different
+		for i := range polFields {
+			for j := i + 1; j < len(polFields); j++ {
+				for k := j + 1; k < len(polFields); k++ {
+					for _, si := range tstates {
+						for _, sj := range tstates {
+							for _, sk := range tstates {
+								p := &ccpb.Policy{}
+								polFields[i].set(p, state(polFields[i], si))
+								polFields[j].set(p, state(polFields[j], sj))
+								polFields[k].set(p, state(polFields[k], sk))
+								add(fmt.Sprintf("field3/%s=%s,%s=%s,%s=%s", polFields[i].name, sn[si], polFields[j].name, sn[sj], polFields[k].name, sn[sk]), p)
+							}
+						}
+					}
+				}
+			}
+		}
+	}
 	// all fields right / all fields right with one wrong length
 	full := func() *ccpb.Policy {
 		p := &ccpb.Policy{}
